@@ -136,3 +136,117 @@ theorem tldSearch_first_host_end (U : UEnv) (w tld : CPs) (hm : tld ∈ tldList)
   exact ⟨hf.1, fun k hk hko => (hf.2 k hk hko).elim⟩
 
 end Pcfg.Detect
+
+namespace Pcfg.Detect
+open Generated.Tables
+
+/-! ## completeness: when the search finds nothing, no occurrence ends a host name -/
+
+theorem findFrom_none (s pat : CPs) : ∀ (fuel i : Nat), findFrom s pat fuel i = none →
+    ∀ k, i ≤ k → k < i + fuel → ¬ OccursAt s pat k
+  | 0, i, _, k, h1, h2 => by omega
+  | fuel + 1, i, h, k, h1, h2 => by
+    unfold findFrom at h
+    split at h
+    · cases h
+    · next hc =>
+      intro hocc
+      by_cases hki : k = i
+      · subst hki
+        apply hc
+        simp only [Bool.and_eq_true, beq_iff_eq, decide_eq_true_eq]
+        exact ⟨hocc.2, hocc.1⟩
+      · exact findFrom_none s pat fuel (i + 1) h k (by omega) (by omega) hocc
+
+theorem findSub_none (s pat : CPs) (h : findSub s pat = none) (k : Nat) : ¬ OccursAt s pat k := by
+  intro hocc
+  have hk : k ≤ s.length := by have := hocc.1; omega
+  exact findFrom_none s pat (s.length + 1) 0 h k (Nat.zero_le _) (by omega) hocc
+
+theorem tldOccurrence_none (U : UEnv) (w tld : CPs) (hb : BorderFree tld) (hpos : 0 < tld.length) :
+    ∀ (fuel : Nat) (o : Option Nat),
+    (∀ t, o = some t → OccursAt w tld t ∧ w.length + 1 ≤ fuel + t ∧
+        ∀ k, k < t → OccursAt w tld k → endsHost U w tld k = false) →
+    (o = none → ∀ k, ¬ OccursAt w tld k) →
+    tldOccurrence U w tld fuel o = none →
+    ∀ k, OccursAt w tld k → endsHost U w tld k = false
+  | 0, none, _, hn, _ => fun k hk => ((hn rfl) k hk).elim
+  | 0, some t, hinv, _, _ => by
+    have ⟨hocc, hf, _⟩ := hinv t rfl
+    have := hocc.1
+    omega
+  | fuel + 1, none, _, hn, _ => fun k hk => ((hn rfl) k hk).elim
+  | fuel + 1, some t, hinv, _, h => by
+    have ⟨hocc, hf, hbefore⟩ := hinv t rfl
+    have hle : t + tld.length ≤ w.length := hocc.1
+    unfold tldOccurrence at h
+    split at h
+    · next hc =>
+      simp only at h
+      have hrej : endsHost U w tld t = false := by
+        unfold endsHost
+        rw [hc]
+        rfl
+      -- occurrences up to the end of the rejected one
+      have hupto : ∀ k, k < t + tld.length → OccursAt w tld k → endsHost U w tld k = false := by
+        intro k hk hko
+        by_cases h1 : k < t
+        · exact hbefore k h1 hko
+        · by_cases h2 : k = t
+          · subst h2; exact hrej
+          · exact (no_self_overlap w tld hb t k hocc hko (by omega) hk).elim
+      split at h
+      · next hnone =>
+        intro k hko
+        by_cases h3 : k < t + tld.length
+        · exact hupto k h3 hko
+        · exfalso
+          have : OccursAt (w.drop (t + tld.length)) tld (k - (t + tld.length)) := by
+            apply (occursAt_drop w tld _ _ hle).2
+            have : t + tld.length + (k - (t + tld.length)) = k := by omega
+            rw [this]
+            exact hko
+          exact findSub_none _ _ hnone _ this
+      · next e he =>
+        have hfs := findSub_first _ _ _ he
+        refine tldOccurrence_none U w tld hb hpos fuel _ ?_ (by intro hh; cases hh) h
+        intro t' ht'
+        cases ht'
+        refine ⟨(occursAt_drop w tld _ e hle).1 hfs.1, by omega, fun k hk hko => ?_⟩
+        by_cases h3 : k < t + tld.length
+        · exact hupto k h3 hko
+        · exfalso
+          have : OccursAt (w.drop (t + tld.length)) tld (k - (t + tld.length)) := by
+            apply (occursAt_drop w tld _ _ hle).2
+            have : t + tld.length + (k - (t + tld.length)) = k := by omega
+            rw [this]
+            exact hko
+          exact hfs.2 _ (by omega) this
+    · cases h
+
+/-- **a top-level domain makes the string a website exactly when one of its occurrences ends a host name** -/
+theorem tldSearch_finds_iff (U : UEnv) (w tld : CPs) (hm : tld ∈ tldList) :
+    (tldOccurrence U w tld (w.length + 1) (findSub w tld)).isSome = true ↔
+      ∃ k, OccursAt w tld k ∧ endsHost U w tld k = true := by
+  constructor
+  · intro h
+    cases hr : tldOccurrence U w tld (w.length + 1) (findSub w tld) with
+    | none => rw [hr] at h; cases h
+    | some total =>
+      have := tldSearch_first_host_end U w tld hm total hr
+      exact ⟨total, this.1, this.2.1⟩
+  · rintro ⟨k, hk, he⟩
+    cases hr : tldOccurrence U w tld (w.length + 1) (findSub w tld) with
+    | some total => rfl
+    | none =>
+      exfalso
+      have hall := tldOccurrence_none U w tld (tld_border_free tld hm) (tld_ne_nil tld hm) (w.length + 1) (findSub w tld)
+        (by
+          intro t ht
+          have hf := findSub_first w tld t ht
+          exact ⟨hf.1, by omega, fun k hk hko => (hf.2 k hk hko).elim⟩)
+        (by intro hn k; exact findSub_none w tld hn k) hr k hk
+      rw [hall] at he
+      cases he
+
+end Pcfg.Detect
